@@ -91,6 +91,13 @@ def run(ctx):
             res.violation(f"a query raised {type(e).__name__}: {e}", case, clause="queries")
             res.case()
             return
+        if res.evaluations % 3 == 0:
+            def again(text=text):
+                q = DecFileParser.from_string(text)
+                q.parse()
+                return impl_queries(q)
+
+            res.remember({"text": text}, again, impl)
         # direct statement of "later wins" for the plain dictionaries
         direct = {
             "aliases": spec_last_wins([(s[1], s[2]) for s in doc if s[0] == "alias"]),
